@@ -172,6 +172,21 @@ def _fuse_iter(text, log, sig_has_iter_ret):
     `loop { match it.next() { None => break, Some(p) => { let x = f(p); B } } }`, and the emitted loop is that
     loop with B empty. That the only consumer does run it to exhaustion with an empty B is checked where the
     consumer is extracted (rule R11 only matches an empty-bodied `for` over the call)."""
+    # the same chains in two other spellings, brought to the canonical one first: the iterator bound to a local that is
+    # used exactly once as the receiver of the adaptor; a `for PAT in RECV.values() { BODY }` statement
+    lm = re.search(r'let (\w+)(?:: [^=;]+)? = (self(?:\s*\.\s*\w+)+?\s*\.\s*(?:drain|values)\(\));\s*\1\s*\.\s*(map|for_each)\(', rl.mask(text))
+    if lm and len(re.findall(r'\b%s\b' % re.escape(lm.group(1)), rl.mask(text))) == 2:
+        text = text[:lm.start()] + text[lm.start(2):lm.end(2)] + '.' + lm.group(3) + '(' + text[lm.end():]
+        log.append(dict(rule='R17:inline-iterator-binding', part='body', count=1, matched=[lm.group(1)], replaced_by='(receiver written in place)', why='a local used once as the receiver of the adaptor'))
+    fm = re.search(r'for (?P<pat>[^{};]+?) in (?P<recv>self(?:\s*\.\s*\w+)+?\s*\.\s*(?:drain|values)\(\))\s*\{', rl.mask(text))
+    if fm:
+        mt = rl.mask(text)
+        bo = fm.end() - 1
+        bc = rl.match_bracket(mt, bo)
+        if re.search(r'\b(return|break|continue)\b', mt[bo:bc]):
+            raise ExtractError('R17: the `for` body has a control transfer')
+        text = text[:fm.start()] + text[fm.start('recv'):fm.end('recv')] + '.for_each(|' + text[fm.start('pat'):fm.end('pat')].strip() + '| ' + text[bo:bc + 1] + ')' + text[bc + 1:]
+        log.append(dict(rule='R17:for-as-for_each', part='body', count=1, matched=['for .. in ..values()/drain()'], replaced_by='.for_each(|..| {..})', why='definition of Iterator::for_each (a `for` body without break/continue/return)'))
     m = rl.mask(text)
     hit = re.search(r'(?P<recv>self(?:\s*\.\s*\w+)+?)\s*\.\s*(?P<src>drain|values)\(\)\s*\.\s*(?P<ad>map|for_each)\(\s*(?P<mv>move\s+)?\|', m)
     if not hit:
@@ -300,6 +315,14 @@ def _drop_macro_calls(text, log):
 GLOBAL_BODY_RULES = [
     Rule('R1:span-enter', r'^[ \t]*let _?entered = [\w\.]+\.enter\(\);\n', '', why='A-tracing: span guard'),
     Rule('R1:drop-entered', r'^[ \t]*drop\(_?entered\);\n', '', why='A-tracing: span guard'),
+    # R19: type annotations on `let` bindings. They cannot change what the code does (inference either agrees or the text no
+    # longer type-checks => undecided); they often name type parameters the extraction erases. A `Default::default()` whose
+    # type is only known from the annotation is written as the constructor it denotes first.
+    Rule('R19:let-default-map', r'\blet (mut )?(\w+): (?:Fnv)?HashMap<[^=;]*> = (?:Default|FnvHashMap|HashMap)::default\(\);', r'let \1\2 = HashMap::new();',
+         why='`Default` of (Fnv)HashMap is the empty map (A-hashmap)'),
+    Rule('R19:let-default-delayqueue', r'\blet (mut )?(\w+): DelayQueue<[^=;]*> = (?:Default|DelayQueue)::default\(\);', r'let \1\2 = DelayQueue::new();',
+         why='`Default` of DelayQueue is `DelayQueue::new()` (tokio-util)'),
+    Rule('R19:let-annotation', r'\blet (mut )?(\w+): (?![^=;]*\bdyn\b)[^=;{}]+? = ', r'let \1\2 = ', why='type annotation of a local (inferred)'),
 ]
 
 GLOBAL_SIG_RULES = [
